@@ -210,4 +210,118 @@ def fragOk : Bool :=
       (match p.toFrames with | .ok fs => fs == srcFragment s a1 a2 a3 l1 l2 l3 l4 o1 o2 p | _ => false)
   | _, _, _, _ => true
 
+/-! ## field layouts of the sixteen event codecs
+
+`Src.encoderWrites` / `Src.encoderAddr` / `Src.decoderReads` / `Src.decoderAddr` say, in terms of the Rust struct field
+names, what every `to_packet` writes in which order and width and what every `try_from_packet` reads from which offset.
+The checks evaluate the model's `encode` / `decode` on one probe event per kind (every field has byte values of its
+own, so that any two fields, offsets or widths are told apart). -/
+
+def probePad : Pad := ⟨0xe1, 0xe2, 0xe3⟩
+
+def probeEvent : Kind → Event
+  | .bootloaderHello => .bootloaderHello 0xa1a2 0x1112
+  | .programmerHello => .programmerHello 0x1112
+  | .startFirmwareUpgrade => .startFirmwareUpgrade 0xa1a2 0x1112 0x21222324
+  | .ack => .ack 0xa1a2 0x1112
+  | .data => .data 0xa1a2 0x1112 3 [0x31, 0x32, 0x33]
+  | .configuratorHello => .configuratorHello
+  | .bcmChange => .bcmChange 0xa1a2 0x1112 0x41 (.rgbwB 0x51 0x52 0x53 0x54 0x55)
+  | .buttonPressed => .buttonPressed 0xa1a2 0x1112 0x41
+  | .buttonReleased => .buttonReleased 0xa1a2 0x1112 0x41
+  | .systemTick => .systemTick 0xa1a2
+  | .startConfigUpgrade => .startConfigUpgrade 0xa1a2 0x1112 0x21222324
+  | .setDeviceAddress => .setDeviceAddress 0xa1a2 0x1112 0x6162
+  | .message => .message 0xa1a2 0x1112 0x6162 (.u32 0x71727374)
+  | .bcmAnimate => .bcmAnimate 0xa1a2 0x1112 0x41 0x21222324 (.rgbwB 0x51 0x52 0x53 0x54 0x55)
+  | .relaySet => .relaySet 0xa1a2 0x1112 0x41 .secondChannelOn
+  | .gatewayDiscover => .gatewayDiscover 0xa1a2 0x1112
+
+/-- the wire bytes of the Rust struct field `name` of an event (fields that travel in the packet's data) -/
+def fieldBytes (pad : Pad) : Event → String → Option (List UInt8)
+  | .bootloaderHello _ b, "bootloader_address" => some (u16b b)
+  | .programmerHello p, "programmer_address" => some (u16b p)
+  | .startFirmwareUpgrade _ p _, "programmer_address" => some (u16b p)
+  | .startFirmwareUpgrade _ _ s, "firmware_size" => some (u32b s)
+  | .ack _ t, "transmitter_address" => some (u16b t)
+  | .data _ t _ _, "transmitter_address" => some (u16b t)
+  | .data _ _ n _, "data_len" => some (u16b n)
+  | .data _ _ _ d, "data" => some d
+  | .bcmChange _ t _ _, "transmitter_address" => some (u16b t)
+  | .bcmChange _ _ i _, "index" => some [i]
+  | .bcmChange _ _ _ v, "value" => some v.ser
+  | .buttonPressed _ b _, "button_address" => some (u16b b)
+  | .buttonPressed _ _ i, "index" => some [i]
+  | .buttonReleased _ b _, "button_address" => some (u16b b)
+  | .buttonReleased _ _ i, "index" => some [i]
+  | .startConfigUpgrade _ p _, "programmer_address" => some (u16b p)
+  | .startConfigUpgrade _ _ s, "config_size" => some (u32b s)
+  | .setDeviceAddress _ p _, "programmer_address" => some (u16b p)
+  | .setDeviceAddress _ _ n, "new_address" => some (u16b n)
+  | .message _ t _ _, "transmitter_address" => some (u16b t)
+  | .message _ _ c _, "code" => some (u16b c)
+  | .message _ _ _ v, "value" => some (v.image pad)
+  | .bcmAnimate _ t _ _ _, "transmitter_address" => some (u16b t)
+  | .bcmAnimate _ _ i _ _, "index" => some [i]
+  | .bcmAnimate _ _ _ d _, "duration" => some (u32b d)
+  | .bcmAnimate _ _ _ _ v, "target_value" => some v.ser
+  | .relaySet _ t _ _, "transmitter_address" => some (u16b t)
+  | .relaySet _ _ i _, "index" => some [i]
+  | .relaySet _ _ _ v, "value" => some v.ser
+  | .gatewayDiscover _ g, "gateway_address" => some (u16b g)
+  | _, _ => none
+
+/-- the Rust struct field `name` of an event that travels as the packet's device address -/
+def addrField : Event → String → Option UInt16
+  | .bootloaderHello p _, "programmer_address" => some p
+  | .startFirmwareUpgrade r _ _, "receiver_address" => some r
+  | .ack r _, "receiver_address" => some r
+  | .data r _ _ _, "receiver_address" => some r
+  | .bcmChange a _ _ _, "bcm_address" => some a
+  | .buttonPressed r _ _, "receiver_address" => some r
+  | .buttonReleased r _ _, "receiver_address" => some r
+  | .systemTick r, "receiver_address" => some r
+  | .startConfigUpgrade r _ _, "receiver_address" => some r
+  | .setDeviceAddress r _ _, "receiver_address" => some r
+  | .message r _ _ _, "receiver_address" => some r
+  | .bcmAnimate a _ _ _ _, "bcm_address" => some a
+  | .relaySet a _ _ _, "relay_address" => some a
+  | .gatewayDiscover d _, "device_address" => some d
+  | _, _ => none
+
+/-- the model's `encode` writes what every `to_packet` writes: the event code, then the fields in source order with
+their source widths (a sub-codec or the data bytes last), and the source's device address -/
+def encoderLayoutOk : Bool :=
+  (Src.encoderWrites.all fun (n, writes) => match kindOfName n with
+    | none => false
+    | some k =>
+      let e := probeEvent k
+      let parts := writes.map fun (f, w) =>
+        (if f == "EVENT_CODE" then some (u16b k.code) else fieldBytes probePad e f).filter fun bs => w == 0 || bs.length == w
+      parts.all Option.isSome && (encode probePad e).data == (parts.map fun o => o.getD []).flatten) &&
+  (Src.encoderAddr.all fun (n, f) => match kindOfName n with
+    | none => false
+    | some k =>
+      let e := probeEvent k
+      if f == "BROADCAST" then (encode probePad e).addr == BROADCAST else addrField e f == some (encode probePad e).addr)
+
+/-- the model's `decode` reads what every `try_from_packet` reads: every field from the source's offset and width (a
+sub-codec or the data bytes: from the offset to the end), and the source's field from the device address -/
+def decoderLayoutOk : Bool :=
+  (Src.decoderReads.all fun (n, reads) => match kindOfName n with
+    | none => false
+    | some k =>
+      let p := encode probePad (probeEvent k)
+      match decode k p with
+      | .ok e => reads.all fun (f, off, w) =>
+          fieldBytes probePad e f == some (if w == 0 then p.data.drop off else (p.data.drop off).take w)
+      | _ => false) &&
+  (Src.decoderAddr.all fun (n, f) => match kindOfName n with
+    | none => false
+    | some k =>
+      let p := encode probePad (probeEvent k)
+      match decode k p with
+      | .ok e => addrField e f == some p.addr
+      | _ => false)
+
 end Ross.SrcTie
